@@ -355,18 +355,19 @@ Model generate(sim::Rng& rng, const GenOptions& opt) {
       int j = (int)rng.below(nv);
       if (used.count(j)) continue;
       used.insert(j);
-      double coef = opt.tag_objectives ? (double)(1000 * (i + 1) + j) : (double)(50 * (i + 1) + j + 1);
+      double coef = opt.tag_objectives ? (double)(20000 * (i + 1) + j) : (double)(50 * (i + 1) + j + 1);
       if (!opt.tag_objectives && rng.chance(0.3)) coef = -coef;
       add_lin(o.lin, j, coef);
       o.tags.push_back(coef);
     }
     sort_lin(o.lin);
-    o.constant = opt.tag_objectives ? 0.5 + i : (rng.chance(0.3) ? (double)rng.range(-9, 9) : 0.0);
+    o.constant = opt.tag_objectives ? 800000.5 + 1000.0 * i : (rng.chance(0.3) ? (double)rng.range(-9, 9) : 0.0);
+    if (opt.tag_objectives) o.tags.push_back(o.constant);
     bool want_nl = has_nl && !obj_nl_vars.empty() && rng.chance(0.5);
     if (want_nl) {
       o.has_nl = true;
       c.nl_vars = obj_nl_vars; c.ncommon_avail = commons_in_objs ? (int)m.commons.size() : 0;
-      double t = opt.tag_objectives ? 7000.0 + i : c.tag();
+      double t = opt.tag_objectives ? 700000.0 + 1000.0 * i : c.tag();   // far apart: derived bounds (tag +- small) must not collide
       Expr body;
       if (opt.tag_objectives) {
         // shapes whose tag constant survives flattening
